@@ -103,9 +103,14 @@ def ival(x: Any) -> int:
     i = int(round(f))
     if abs(f - i) > 1e-9:
         raise ValueError(f"not integral: {x}")
-    # TLC integers are 32 bit and its JSON reader wraps larger values (4294967295 would read as -1): a value that large is never
-    # legitimate in an observation (times are relative, ids are file positions), so it is pinned to a sentinel TLC can tell from -1
-    return max(-(2 ** 30), min(2 ** 30, i))
+    return i
+
+
+def oval(x: Any) -> int:
+    """An OUTPUT value of the code under test as an integer.  TLC integers are 32 bit and its JSON reader wraps larger values
+    (4294967295 would read as -1): anything beyond +-2^30 is pinned to that sentinel, which TLC can tell from the small value it would
+    otherwise wrap to."""
+    return max(-(2 ** 30), min(2 ** 30, ival(x)))
 
 
 def scaled(x: Any, k: int) -> int:
